@@ -882,6 +882,7 @@ func TestC10(t *testing.T) {
 		}
 	}
 	c10ExtraStream(t, rep, rng.Fork(), env)
+	c10RealSink(t, rep)
 	c10ClassifyStream(t, rep, orc, rng.Fork(), env.Scale(2000, 40000))
 	if rep.Failed() {
 		t.Fail()
